@@ -76,4 +76,22 @@ PROPS = {
             "inputs for which the specification leaves the result open (NaN ordering in max/min/top-k style operators, out-of-range casts, align_corners with a size-1 output, Gemm with beta=0 and non-finite C) are not generated",
         ],
     ),
+    "C01": dict(
+        gen=dict(script="modelgen.py", args=["--family", "patterns,dag"]),
+        steps=[native("modelcheck", ["c01"], shards=8)],
+        floor={Q: 2000, T: 50000},
+        assumptions=[
+            "the un-optimised load without shape inference is the baseline; a defect shared by every configuration is invisible here (C15 covers operator semantics)",
+            "float tolerance 1e-4 + 1e-3*|b| (fused kernels may reassociate); generated constants are either exact pattern constants or off by >= 1e-2",
+        ],
+    ),
+    "C11": dict(
+        steps=[native("symcheck", ["c11"], shards=4)],
+        floor={Q: 100000, T: 1000000},
+        assumptions=[
+            "the harness's 128-bit evaluator of the ORIGINAL expression is the reference",
+            "Div is compared only where flooring (documented) and truncation (implemented) agree; Broadcast only on operands >= 0 that are equal or 1, excluding (0,1)",
+            "a simplified expression that itself overflows i32 is accepted if exact or wrapped evaluation at that node yields the reference value",
+        ],
+    ),
 }
